@@ -205,6 +205,8 @@ def _build_new_state(con, pc, clauses_fn_result, lineno):
         if fname in s.f:
             s.f[fname] = _fresh_like(s.f[fname], "%s.%s!%d" % (tag, fname, logic._fresh_ctr[0]))
             logic._fresh_ctr[0] += 1
+            if isinstance(s.f[fname], V.VDyn):
+                s.assume(s.f[fname].well_formed())
     for attr in con.heap_modifies:
         s.heap_arr(attr)
         s.havoc_heap(attr, "%s!%d" % (tag, logic._fresh_ctr[0]))
@@ -255,6 +257,8 @@ def _fresh_like(v, name):
         return V.VObj(z3.Int(name), v.kind)
     if isinstance(v, V.VStr):
         return V.VStr(z3.Int(name))
+    if isinstance(v, V.VDyn):
+        return V.VDyn(name)
     if isinstance(v, V.VOpt):
         return V.VOpt(z3.Bool(name + ".isnone"), _fresh_like(v.val, name + ".val"))
     if isinstance(v, V.VTuple):
@@ -312,6 +316,19 @@ def verify_function(lib, cls, fname, fnode, con, timeout_ms=10000, want_models=T
         ctx = Ctx(cls, fname, lib, loop_invs=lib.loop_invs(cls, fname), yields=lib.yield_spec(cls, fname, con, old, args),
                   module=profile.get("file"))
         ctx.local_names = assigned_names(fnode)
+        import ast as _ast
+        k = 0
+        for nd in _ast.walk(fnode):
+            pass
+        order = []
+
+        def _visit(nd):
+            for ch in _ast.iter_child_nodes(nd):
+                if isinstance(ch, (_ast.For, _ast.While)):
+                    order.append(ch)
+                _visit(ch)
+        _visit(fnode)
+        ctx.loop_index = {id(nd): i for i, nd in enumerate(order)}
         ctx.old = old
         ctx.args = args
         ctx.con = con
@@ -481,7 +498,12 @@ def _judge(lib, cls, con, ctx, old, args, o, k, fnode):
                        o.value.lineno, cases[0].props)
             case_states = [(cases[0], st)]
         else:
-            raise Unsupported("several exception cases of one type")
+            # several admissible reasons for this exception type: one of them must hold
+            if any(logic.is_forall(w) or logic.is_exists(w) for w in whens):
+                raise Unsupported("several quantified exception cases of one type")
+            ctx.oblige("exit%d.raise-%s@L%d.allowed-when.one-of(%s)" % (k, et, o.value.lineno, ",".join(c.name for c in cases)),
+                       st, [z3.Or(*whens)], "exc", o.value.lineno, cases[0].props)
+            case_states = [(c_, st) for c_ in cases if c_.unchanged is False and c_.clauses is None][:0]
         for case, s in case_states:
             if case.unchanged:
                 for nm, cl in unchanged_clauses(lib, cls, old, s):
